@@ -16,7 +16,13 @@ RULE = ('E1: all 64 method classes x argument vectors with <= 2 deviations '
         'first, application subclasses first, class-level calls first, '
         'decoding first, reversed / sorted / interleaved class order) '
         'followed by the view of every class. A case is (class, vector, '
-        'before|after); non-trivial = not the default vector.')
+        'before|after); non-trivial = not the default vector.'
+        ' '
+        'Also: five kinds of application subclass (plain, annotated '
+        'attribute, annotations read once, own constructor, two '
+        'levels) of all 64 methods and of Basic.Properties through '
+        'the same view and marshal; the list returned by attributes() '
+        'reversed and extended by the caller.')
 BOUNDS = {'quick': {'vectors': '<=2 deviations', 'properties': 'C02 quick'},
           'thorough': {'vectors': 'full products', 'properties':
                        'C02 thorough'}}
